@@ -248,6 +248,28 @@ class ReplacementFrontend(ConstrainedFrontend):
             return super()._concrete_constraint(er)
         return super()._concrete_constraint(e)
 
+    def _replace_except_own(self, c):
+        """
+        A constraint that its own replacement turns into a tautology still has to reach the actual solver, with
+        every *other* replacement applied (the actual solver does not know, e.g., a replacement the user set with
+        add_replacement(), so it must not see the replaced term as a free variable).
+        """
+        if self._complex_auto_replace or not isinstance(c, Base):
+            return c
+        own = {c.hash()}
+        if c.op == "Not":
+            own.add(c.args[0].hash())
+        elif c.op == "__eq__" and c.args[0].symbolic ^ c.args[1].symbolic:
+            own.add((c.args[0] if c.args[0].symbolic else c.args[1]).hash())
+        others = {k: v for k, v in self._replacements.items() if k not in own}
+        if not others:
+            return c
+        try:
+            r = claripy.replace_dict(c, others)
+        except ClaripyZeroDivisionError:
+            return c
+        return c if r.is_true() else r
+
     def _add(self, constraints, invalidate_cache=True):
         if self._auto_replace:
             for c in constraints:
@@ -286,7 +308,7 @@ class ReplacementFrontend(ConstrainedFrontend):
         # do not contain the replaced term, so a constraint must not vanish just because a replacement (typically
         # the one it has just defined itself) turns it into a tautology.
         cr = tuple(
-            c if self._allow_symbolic and isinstance(r, Base) and r.is_true() else r
+            self._replace_except_own(c) if self._allow_symbolic and isinstance(r, Base) and r.is_true() else r
             for c, r in zip(added, self._replace_list(added), strict=False)
         )
         if not self._allow_symbolic and any(c.symbolic for c in cr):
